@@ -139,7 +139,7 @@ pub fn run_all(ctx: &Ctx) {
         let max_len = max_len_for(v, ctx);
         ctx.prop(
             &format!("progress/{}", v.name()),
-            ctx.n(3000, 50_000),
+            ctx.n(3000, 200_000),
             || {
                 // mostly no disconnects so that the liveness clause applies; a few with session ops
                 (prop::bool::weighted(0.1), history_strategy(max_len, max_ops, false), history_strategy(max_len, max_ops, true))
@@ -265,7 +265,7 @@ fn floods(ctx: &Ctx) {
     for v in VARIANTS {
         ctx.prop(
             &format!("flood/{}", v.name()),
-            ctx.n(40, 2000),
+            ctx.n(40, 10_000),
             || {
                 (0u8..2, prop_oneof![2 => 500u16..=1000, 1 => 511u16..=514, 1 => 1000u16..=1005], 0u8..12, prop_oneof![Just(0u16), Just(1), 2u16..300], 0u8..4, any::<bool>(), 0u8..4)
                     .prop_map(|(side, n, len, flush_every, lose_first, lose_acks, peer_sends)| Flood { side, n, len, flush_every, lose_first, lose_acks, peer_sends })
